@@ -87,6 +87,10 @@ def run(chk, tier, proof_ok):
         units, results = units + more, results + alias.run_units(more, procs)
         findings = _c16.collect(results)
     summarise(chk, units, results)
+    import realsearch
+    rf, rst = realsearch.reset_after_swap_findings(chk.seed * 59 + 3, 4 if tier == 'quick' else 24)
+    chk.coverage['tall_ladder_reset_after_swap'] = rst
+    findings = list(findings) + rf
     for key, text, payload in findings:
         chk.violation(key, text, payload, True)
     broken = []
